@@ -486,6 +486,16 @@ class ScheduleNTasksInTimeIntervals(TaskConstraint):
                         task._end <= upper_bound,
                     )
                 )
+                # a scheduled task that is not counted in this interval lies entirely
+                # outside of it: partial overlaps are excluded
+                self.set_z3_assertions(
+                    z3.Or(
+                        task_in_time_interval,
+                        z3.Not(task._scheduled),
+                        task._end <= lower_bound,
+                        task._start >= upper_bound,
+                    )
+                )
             # only one maximum bool to True from the previous possibilities
             asst_tsk = z3.PbLe(
                 [(scheduled, True) for scheduled in bools_for_this_task], 1
